@@ -698,6 +698,13 @@ def grammar(tier, seed):
         sympy.I * x - y, x - sympy.I * y, sympy.Rational(1, 3) * x - sympy.Rational(2, 3) * y, 0.1 * x + 0.2 * y - 0.3,
     ]:
         add(e, 4)
+    # exponents that are not real: purely imaginary ones of modulus 1/2 (where a test on the exponent's absolute value takes them
+    # for square roots), other moduli, mixed ones; as Rational and as Float
+    Ih = sympy.I
+    for base in (x, x + y, x * y, 2 * x, x - 1):
+        for ex in (Ih / 2, -Ih / 2, 0.5 * Ih, -0.5 * Ih, Ih, 2 * Ih, Ih / 3, (1 + Ih) / 2, sympy.Rational(3, 10) + sympy.Rational(2, 5) * Ih, 0.3 + 0.4 * Ih, -0.3 - 0.4 * Ih):
+            add(base**ex, 4)
+            add(1 / base**ex, 4)
     return out
 
 
